@@ -6,14 +6,15 @@ from props import dwtfam
 
 ID = 'C05'
 PROPS_MODULE = 'Props.C05'
-THEOREMS = ['C05_adjoint_zero_line', 'C05_afb_zero_row', 'C05_afb_per_row', 'C05_subsets', 'C05_afb_sym_refuted']
+THEOREMS = ['C05_adjoint_zero_line', 'C05_afb_zero_row', 'C05_afb_per_row', 'C05_afb2d_zero', 'C05_afb2d_per', 'C05_subsets', 'C05_afb_sym_refuted']
 VO = ['theories/Props/C05.vo', 'theories/Run/RunDwt.vo']
 RULE = ('correspondence A: AFB1D/AFB2D/SFB1D/SFB2D.backward (torch.autograd.grad with integer cotangents) vs the backward model, all 5 modes, '
         'odd/even/short sizes, N,C>1; oracle: Jacobian J assembled from basis inputs through the public modules, grad == J^T g for random g, '
         'every non-empty subset of differentiable arguments of the inverse; distinct by (direction, kind, wavelet, mode, J, size, subset)')
 TRUSTED = TRUSTED_COMMON + ['autograd composes the per-level Functions (modelled as reverse composition); needs_input_grad semantics of torch.autograd.Function']
-ASSUMES = ['theorems: zero-mode adjointness of the row pass for all sizes/filters (AFB and, read right-to-left, SFB) and the grad-subset rule; '
-           'periodization adjointness and the multi-level/2-D composition are covered by correspondence + oracle; symmetric/reflect/periodic are known findings']
+ASSUMES = ['theorems: adjointness of the row pass (zero mode all sizes; periodization even length >= filter) and of the WHOLE 2-D Function AFB2D incl. the crop '
+           '(C05_afb2d_zero, C05_afb2d_per; read right-to-left: SFB2D), and the grad-subset rule; the composition over levels is the chain rule of autograd (trusted); '
+           'symmetric/reflect/periodic and odd/short periodization are known findings']
 
 
 def corr_jobs(tier, rng):
